@@ -266,8 +266,236 @@ def nestStep (g j : Bytes) (t : RType) (d : Doc) : Doc :=
   | .struct sub, some (.obj m) => insertKey (toName g j) (.obj (renameMapKeys (.struct sub) m)) d
   | _, _ => d
 
+set_option smartUnfolding false in
+/-- unfolding of `renameNested` (the equation lemmas of the mutual definition cannot be generated
+    automatically: the recursive call sits inside a `match` on the field type) -/
 theorem renameNested_cons (g c j : Bytes) (t : RType) (rest : List RField) (d : Doc) :
     renameNested ((g, c, j, t) :: rest) d = renameNested rest (nestStep g j t d) := by
-  rfl
+  cases t with
+  | leaf => rfl
+  | struct sub =>
+    unfold nestStep
+    conv => lhs; delta renameNested; whnf
+    generalize lookupKey (toName g j) d = o
+    cases o with
+    | none => rfl
+    | some v => cases v <;> rfl
+
+theorem renameNested_nil (d : Doc) : renameNested [] d = d := rfl
+
+theorem renameMapKeys_struct (fs : List RField) (d : Doc) :
+    renameMapKeys (.struct fs) d = renameNested fs (renameTop (renameMap fs) d) := rfl
+
+theorem renameMapKeys_leaf (d : Doc) : renameMapKeys .leaf d = d := rfl
+
+theorem lookupKey_nestStep (g j : Bytes) (t : RType) (d : Doc) (k : Bytes) :
+    lookupKey k (nestStep g j t d) =
+      if k = toName g j then (lookupKey k d).map (renameVal t) else lookupKey k d := by
+  by_cases hk : k = toName g j
+  · subst hk
+    rw [if_pos rfl]
+    unfold nestStep
+    cases t with
+    | leaf => cases lookupKey (toName g j) d <;> rfl
+    | struct sub =>
+      cases h : lookupKey (toName g j) d with
+      | none => simp only [h]; rfl
+      | some v =>
+        cases v <;> simp only [h, lookupKey_insertKey, if_true, Option.map_some, renameVal]
+  · rw [if_neg hk]
+    unfold nestStep
+    split
+    · rw [lookupKey_insertKey, if_neg hk]
+    · rfl
+
+/-- a key that is no field's read name is not touched by the nested step -/
+theorem lookupKey_renameNested_other (k : Bytes) : (fs : List RField) → (d : Doc) →
+    (∀ f ∈ fs, k ≠ RField.read f) → lookupKey k (renameNested fs d) = lookupKey k d
+  | [], _, _ => rfl
+  | (g, c, j, t) :: rest, d, h => by
+    have hk : k ≠ toName g j := h (g, c, j, t) List.mem_cons_self
+    rw [renameNested_cons,
+      lookupKey_renameNested_other k rest _ (fun f hf => h f (List.mem_cons_of_mem _ hf)),
+      lookupKey_nestStep, if_neg hk]
+
+/-- the nested step rewrites the value under the read name of each field according to its type -/
+theorem lookupKey_renameNested_field : (fs : List RField) → (d : Doc) → (fs.map RField.read).Nodup →
+    ∀ f ∈ fs, lookupKey (RField.read f) (renameNested fs d) =
+      (lookupKey (RField.read f) d).map (renameVal f.2.2.2)
+  | [], _, _, f, hf => by cases hf
+  | (g, c, j, t) :: rest, d, hn, f, hf => by
+    simp only [List.map_cons, List.nodup_cons] at hn
+    have hn1 : toName g j ∉ rest.map RField.read := hn.1
+    rw [renameNested_cons]
+    rcases List.mem_cons.1 hf with rfl | hf'
+    · rw [lookupKey_renameNested_other _ rest _
+        (fun f' hf' e => hn1 (by rw [show toName g j = RField.read f' from e]; exact List.mem_map_of_mem hf')),
+        lookupKey_nestStep]
+      exact if_pos rfl
+    · have hne : RField.read f ≠ toName g j := fun e => hn1 (e ▸ List.mem_map_of_mem hf')
+      rw [lookupKey_renameNested_field rest _ hn.2 f hf', lookupKey_nestStep, if_neg hne]
+
+/-- item 4, one level: after `renameMapKeys` the value of every field is found under its read name;
+    an object under a field of struct type has been renamed by that type, everything else is kept -/
+theorem lookupKey_renameMapKeys_field (fs : List RField) (hok : FieldsOK fs) (d : Doc)
+    (hd : DocFits fs d) (f : RField) (hf : f ∈ fs) :
+    lookupKey (RField.read f) (renameMapKeys (.struct fs) d) =
+      (lookupKey (RField.stored f) d).map (renameVal f.2.2.2) := by
+  rw [renameMapKeys_struct, lookupKey_renameNested_field fs _ hok.2 f hf,
+    lookupKey_renameTop_field fs hok d hd f hf]
+
+/-- a field of struct type whose value is an object -/
+theorem renameMapKeys_nested (fs : List RField) (hok : FieldsOK fs) (d : Doc) (hd : DocFits fs d)
+    (g c j : Bytes) (sub : List RField) (hf : (g, c, j, RType.struct sub) ∈ fs) (m : Doc)
+    (hm : lookupKey (fromName g c) d = some (.obj m)) :
+    lookupKey (toName g j) (renameMapKeys (.struct fs) d) =
+      some (.obj (renameMapKeys (.struct sub) m)) := by
+  have := lookupKey_renameMapKeys_field fs hok d hd _ hf
+  simp only [RField.read, RField.stored, hm, Option.map_some, renameVal] at this
+  exact this
+
+/-- a field of leaf type keeps its value -/
+theorem renameMapKeys_leaf_field (fs : List RField) (hok : FieldsOK fs) (d : Doc) (hd : DocFits fs d)
+    (g c j : Bytes) (hf : (g, c, j, RType.leaf) ∈ fs) :
+    lookupKey (toName g j) (renameMapKeys (.struct fs) d) = lookupKey (fromName g c) d := by
+  have := lookupKey_renameMapKeys_field fs hok d hd _ hf
+  simp only [RField.read, RField.stored] at this
+  rw [this]
+  cases lookupKey (fromName g c) d <;> rfl
+
+/-- a value that is not an object is kept whatever the field type -/
+theorem renameVal_of_not_obj (t : RType) (v : Value) (h : ∀ m, v ≠ .obj m) : renameVal t v = v := by
+  cases t with
+  | leaf => rfl
+  | struct sub => cases v <;> first | rfl | exact absurd rfl (h _)
+
+/-! ## 4'. Every level: a path of fields through nested structs -/
+
+/-- `FieldsOK` at every nesting level -/
+inductive RType.OK : RType → Prop
+  | leaf : RType.OK .leaf
+  | struct (fs : List RField) : FieldsOK fs → (∀ f ∈ fs, RType.OK f.2.2.2) → RType.OK (.struct fs)
+
+theorem RType.OK.fields {fs : List RField} (h : RType.OK (.struct fs)) : FieldsOK fs := by
+  cases h; assumption
+
+theorem RType.OK.field {fs : List RField} (h : RType.OK (.struct fs)) {f : RField} (hf : f ∈ fs) :
+    RType.OK f.2.2.2 := by
+  cases h with | struct _ _ hall => exact hall f hf
+
+/-- `f :: p` is a chain of fields: `f` a field of `T`, the next one a field of the type of `f`, … -/
+def PathIn : RType → List RField → Prop
+  | _, [] => True
+  | .leaf, _ :: _ => False
+  | .struct fs, f :: p => f ∈ fs ∧ PathIn f.2.2.2 p
+
+/-- the documents met along the path fit the struct types (`DocFits`) -/
+def DocFitsAlong : RType → List RField → Doc → Prop
+  | .struct fs, f :: p, d =>
+    DocFits fs d ∧ ∀ m, lookupKey (RField.stored f) d = some (.obj m) → DocFitsAlong f.2.2.2 p m
+  | _, _, _ => True
+
+/-- the type of the last field of the path `f :: p` -/
+def lastType : RField → List RField → RType
+  | f, [] => f.2.2.2
+  | _, f' :: p => lastType f' p
+
+/-- item 4 at every level: reading the path of read names in the renamed document gives what the
+    path of stored names gives in the original (the last value renamed by the type of the last field) -/
+theorem getPath_renameMapKeys : (p : List RField) → (T : RType) → (f : RField) → (d : Doc) →
+    RType.OK T → PathIn T (f :: p) → DocFitsAlong T (f :: p) d →
+    getPath (renameMapKeys T d) ((f :: p).map RField.read) =
+      (getPath d ((f :: p).map RField.stored)).map (renameVal (lastType f p))
+  | [], .leaf, _, _, _, hp, _ => by cases hp
+  | [], .struct fs, f, d, hok, hp, hd => by
+    simp only [List.map_cons, List.map_nil, getPath, lastType]
+    exact lookupKey_renameMapKeys_field fs hok.fields d hd.1 f hp.1
+  | _ :: _, .leaf, _, _, _, hp, _ => by cases hp
+  | f' :: p, .struct fs, f, d, hok, hp, hd => by
+    have h1 := lookupKey_renameMapKeys_field fs hok.fields d hd.1 f hp.1
+    simp only [List.map_cons, getPath, lastType, h1]
+    cases hl : lookupKey (RField.stored f) d with
+    | none => rfl
+    | some v =>
+      have hp2 : PathIn f.2.2.2 (f' :: p) := hp.2
+      have hok2 : RType.OK f.2.2.2 := hok.field hp.1
+      have hd2 := hd.2
+      rw [hl] at hd2
+      cases ht : f.2.2.2 with
+      | leaf => rw [ht] at hp2; cases hp2
+      | struct sub =>
+        rw [ht] at hp2 hok2 hd2
+        cases v with
+        | obj m =>
+          simp only [Option.map_some, renameVal]
+          have := getPath_renameMapKeys p (.struct sub) f' m hok2 hp2 (hd2 m rfl)
+          simp only [List.map_cons] at this
+          exact this
+        | _ => rfl
+
+/-! ## 5. Witnesses -/
+
+section Witnesses
+private def kA : Bytes := [0x41]
+private def kB : Bytes := [0x42]
+private def kC : Bytes := [0x43]
+private def kx : Bytes := [0x78]
+private def kF0 : Bytes := [0x46, 0x30]
+private def kF1 : Bytes := [0x46, 0x31]
+private def n (i : Int) : Value := .num (.int i)
+
+/-- the swap: field `A` stored under "B", field `B` stored under "A"; both values arrive -/
+example : renameTop [(kB, kA), (kA, kB)] [(kA, n 1), (kB, n 2)] = [(kA, n 2), (kB, n 1)] := by rfl
+
+/-- the same through `renameMap` of a struct type with swapped `clover` tags -/
+example : renameMapKeys (.struct [(kA, kB, [], .leaf), (kB, kA, [], .leaf)]) [(kA, n 1), (kB, n 2)]
+    = [(kA, n 2), (kB, n 1)] := by rfl
+
+/-- the swap, through item 2 -/
+example : lookupKey kA (renameTop [(kB, kA), (kA, kB)] [(kA, n 1), (kB, n 2)]) = some (n 2) :=
+  (lookupKey_renameTop_iff [(kB, kA), (kA, kB)] [(kA, n 1), (kB, n 2)] (by decide) kA (n 2)).2
+    ⟨kB, rfl, rfl⟩
+
+/-- a sequential in-place renaming (one entry of the map after the other) -/
+private def renameSeq (rm : List (Bytes × Bytes)) (d : Doc) : Doc :=
+  rm.foldl (fun acc ab => match lookupKey ab.1 acc with
+    | some v => insertKey ab.2 v (acc.filter (fun kv => kv.1 != ab.1))
+    | none => acc) d
+
+/-- … loses a value on the swap -/
+example : renameSeq [(kB, kA), (kA, kB)] [(kA, n 1), (kB, n 2)] = [(kB, n 2)] := by rfl
+
+/-- the target type of finding F32: the outer field `A` carries the tags `clover:"F1" json:"F1"`, its
+    struct type has a field `B` with `clover:"x"` -/
+private def tInner : List RField := [(kA, [], [], .leaf), (kB, kx, [], .leaf), (kC, [], [], .leaf)]
+private def tOuter : RType :=
+  .struct [(kA, kF1, kF1, .struct tInner), (kB, kx, [], .leaf), (kC, [], kF0, .leaf)]
+
+/-- the nested struct found under the json name "F1" is renamed by its type (`x` ↦ `B` inside), which
+    the code before the repair missed (inner `B` was decoded as 0) -/
+example :
+    renameMapKeys tOuter
+      [(kC, n 932), (kF1, .obj [(kA, n 947), (kC, n 755), (kx, n 883)]), (kx, n 566)]
+    = [(kB, n 566), (kF0, n 932), (kF1, .obj [(kA, n 947), (kB, n 883), (kC, n 755)])] := by rfl
+
+/-- a nested struct whose stored name and read name differ: stored under the `clover` name "x",
+    read under the `json` name "F0"; it is found under the key it has AFTER the renaming -/
+example :
+    renameMapKeys (.struct [(kA, kx, kF0, .struct tInner)])
+      [(kx, .obj [(kA, n 1), (kx, n 2)])]
+    = [(kF0, .obj [(kA, n 1), (kB, n 2)])] := by rfl
+
+example : RType.OK tOuter := by
+  refine .struct _ ⟨by decide, by decide⟩ ?_
+  intro f hf
+  simp only [List.mem_cons, List.not_mem_nil, or_false] at hf
+  rcases hf with rfl | rfl | rfl
+  · refine .struct _ ⟨by decide, by decide⟩ ?_
+    intro f hf
+    simp only [tInner, List.mem_cons, List.not_mem_nil, or_false] at hf
+    rcases hf with rfl | rfl | rfl <;> exact .leaf
+  · exact .leaf
+  · exact .leaf
+end Witnesses
 
 end CV
